@@ -239,6 +239,8 @@ Proof. intros Hs Le Ltd. unfold copy_in_and_update.
     change (fst (nth (f + 1) (firstn l old) dE)) with (tm (firstn l old) (f + 1)). rewrite tm_firstn by lia. lra. Qed.
 
 (* ------------------------------------------------------------------ the Delay state machine *)
+Section Cfg.
+Variable fx : bool.
 Notation Delm := (@delm R).
 Definition dmach (s : St) (j : nat) : option Delm :=
   match nth_error (s_machs s) j with Some (MD d) => Some d | _ => None end.
@@ -303,10 +305,10 @@ Definition dghost_step (s : St) (j : nat) (o : Op) (bv : Buf) : Buf :=
 Ltac ds_keep := split; [assumption|]; split; [assumption|]; split; [assumption|].
 
 Lemma step_DS (s : St) j src delay bv (op : Op) : DS s j src delay bv -> op <> Init ->
-  DS (fst (step ROps s op)) j src delay (dghost_step s j op bv) /\
-  (forall d d', dmach s j = Some d -> dmach (fst (step ROps s op)) j = Some d' -> d_buf d' = dbuf_step s j op (d_buf d)) /\
+  DS (fst (step ROps fx s op)) j src delay (dghost_step s j op bv) /\
+  (forall d d', dmach s j = Some d -> dmach (fst (step ROps fx s op)) j = Some d' -> d_buf d' = dbuf_step s j op (d_buf d)) /\
   (op = GetM j -> (4 <= e_stage (s_env s))%nat ->
-   snd (step ROps s op) = match calc_value_at ROps (dghost_step s j op bv) (e_t (s_env s) - delay) with
+   snd (step ROps fx s op) = match calc_value_at ROps (dghost_step s j op bv) (e_t (s_env s) - delay) with
                           | Some w => OVal w | None => ONaN end).
 Proof. intros (W & d & Hd & Hs & Hdl & HI) NI.
   assert (Nd : nth_error (s_machs s) j = Some (MD d)).
@@ -400,12 +402,12 @@ Fixpoint d_run_ok (s : St) j (delay : R) (bv : Buf) (ops : list Op) : Prop :=
   match ops with
   | [] => True
   | op :: r =>
-      (forall d d', dmach s j = Some d -> dmach (fst (step ROps s op)) j = Some d' ->
+      (forall d d', dmach s j = Some d -> dmach (fst (step ROps fx s op)) j = Some d' ->
                     d_buf d' = dbuf_step s j op (d_buf d) /\ sorted (d_buf d')) /\
       (op = GetM j -> (4 <= e_stage (s_env s))%nat ->
-       snd (step ROps s op) = match calc_value_at ROps (dghost_step s j op bv) (e_t (s_env s) - delay) with
+       snd (step ROps fx s op) = match calc_value_at ROps (dghost_step s j op bv) (e_t (s_env s) - delay) with
                               | Some w => OVal w | None => ONaN end) /\
-      d_run_ok (fst (step ROps s op)) j delay (dghost_step s j op bv) r
+      d_run_ok (fst (step ROps fx s op)) j delay (dghost_step s j op bv) r
   end.
 
 Lemma delay_is_calc_on_buffer (s : St) j src delay bv (ops : list Op) :
@@ -431,6 +433,8 @@ Proof. intros [Hs Hu Hv]. constructor; cbn [d_init d_buf d_upd d_val]; auto.
   - simpl. auto.
   - split; [simpl; discriminate|]. intros [_ O]. simpl in O. discriminate. Qed.
 
+End Cfg.
+
 (* ------------------------------------------------------------------ example *)
 Ltac rcmp := repeat match goal with
   | |- context [Rleb ?a ?b] => first [replace (Rleb a b) with true by (symmetry; apply Rleb_true; lra)
@@ -446,6 +450,145 @@ Example delay_is_calc_on_buffer_example :
   let s := mkSt (env0 0 []) [] [MD (mk_delay [PTime] (1/2))] in
   let ops := [Realize 8; AutoUpd; SetTime 1; Realize 8; AutoUpd; SetTime 2; Realize 8; GetM 0] in
   DS s 0%nat [PTime] (1/2) [] /\ Forall (fun o : Op => o <> Init) ops /\
-  exists v, nth_error (snd (run ROps s ops)) 7 = Some (OVal [v]) /\ v = 3/2.
+  exists v, nth_error (snd (run ROps false s ops)) 7 = Some (OVal [v]) /\ v = 3/2.
 Proof. intros s ops. split; [apply DS_init; reflexivity|]. split; [repeat constructor; discriminate|].
   unfold s, ops. reval. eexists. split; [reflexivity|]. field. Qed.
+
+(** the auto-update is not transparent for Delay (known finding delay-value-not-invalidated-by-autoupdate): with samples of
+    sin(pi/2 t) at t = 0, 1 and delay 1/2, the value at t = 2 is the extrapolation 3/2; the auto-update at t = 2 adds the sample
+    (2, 0) but the cached value stays; once the cache is invalidated the very same state evaluates to 1/2 *)
+Lemma delay_autoupdate_not_transparent :
+  let s := mkSt (env0 0 []) [] [MD (mk_delay [PSin 1 (PI/2) 0] (1/2))] in
+  let ops := [Realize 8; AutoUpd; SetTime 1; Realize 8; AutoUpd; SetTime 2; Realize 8; GetM 0; AutoUpd; GetM 0;
+              SetTime 2; Realize 8; GetM 0] in
+  DS s 0%nat [PSin 1 (PI/2) 0] (1/2) [] /\ List.Forall (fun o : Op => o <> Init) ops /\
+  exists v1 v2, nth_error (snd (run ROps false s ops)) 7 = Some (OVal [v1]) /\ nth_error (snd (run ROps false s ops)) 9 = Some (OVal [v1]) /\
+                nth_error (snd (run ROps false s ops)) 12 = Some (OVal [v2]) /\ v1 = 3/2 /\ v2 = 1/2.
+Proof. intros s ops. split; [apply DS_init; reflexivity|]. split; [repeat constructor; discriminate|].
+  unfold s, ops. remember (PI / 2) as w eqn:Hw. reval. eexists. eexists. split; [reflexivity|]. split; [reflexivity|]. split; [reflexivity|].
+  replace (w * 0 + 0) with 0 by lra. replace (w * 1 + 0) with (PI / 2) by lra. replace (w * 2 + 0) with PI by lra.
+  rewrite sin_0, sin_PI2, sin_PI. split; field. Qed.
+
+(* ------------------------------------------------------------------ many updates: the pruned buffer against the full history *)
+(** the history without pruning: only the entries at or after the new time are dropped (they are on both sides) *)
+Definition hist_step (H : Buf) (t : R) (v : list R) : Buf := firstn (count_to_last_earlier ROps H t) H ++ [(t, v)].
+(** P is H with k leading entries dropped, at least two of the kept ones being earlier than tq *)
+Definition PR (tq : R) (P H : Buf) : Prop :=
+  exists k, P = skipn k H /\ (k = 0%nat \/ ((k + 2 <= length H)%nat /\ tm H (k + 1) < tq)).
+
+Lemma cle_unique (b : Buf) t n : sorted b -> (n <= length b)%nat ->
+  (forall j, (j < n)%nat -> tm b j < t) -> (forall j, (n <= j)%nat -> (j < length b)%nat -> t <= tm b j) ->
+  count_to_last_earlier ROps b t = n.
+Proof. intros Hs Ln A B. destruct (cle_sorted b t Hs) as [A' B']. pose proof (cle_le b t) as L'.
+  destruct (Nat.lt_trichotomy (count_to_last_earlier ROps b t) n) as [H|[H|H]]; auto.
+  - pose proof (A _ H). pose proof (B' _ (le_n _) ltac:(lia)). lra.
+  - pose proof (A' _ H). pose proof (B _ (le_n _) ltac:(lia)). lra. Qed.
+Lemma cle_skipn (H : Buf) t k : sorted H -> (k <= count_to_last_earlier ROps H t)%nat ->
+  count_to_last_earlier ROps (skipn k H) t = (count_to_last_earlier ROps H t - k)%nat.
+Proof. intros Hs Hk. destruct (cle_sorted H t Hs) as [A B]. pose proof (cle_le H t) as L.
+  apply cle_unique.
+  - apply sorted_skipn; auto.
+  - rewrite skipn_length. lia.
+  - intros j Hj. rewrite tm_skipn. apply A. lia.
+  - intros j H1 H2. rewrite skipn_length in H2. rewrite tm_skipn. apply B; lia. Qed.
+Lemma ffl_skipn (H : Buf) td k : (forall j, (j < k)%nat -> (j < length H)%nat -> tm H j < td) ->
+  find_first_later_or_eq ROps (skipn k H) td = option_map (fun i => (i - k)%nat) (find_first_later_or_eq ROps H td) /\
+  (forall i, find_first_later_or_eq ROps H td = Some i -> (k <= i)%nat).
+Proof. intros E. destruct (find_first_later_or_eq ROps H td) as [i|] eqn:F.
+  - destruct (ffl_some H td i F) as (A1 & A2 & A3).
+    assert (Ki : (k <= i)%nat). { destruct (Nat.le_gt_cases k i); auto. pose proof (E i H0 A1). lra. }
+    split; [|intros i' [= <-]; auto]. simpl. apply ffl_unique.
+    + rewrite skipn_length. lia.
+    + rewrite tm_skipn. replace (k + (i - k))%nat with i by lia. exact A2.
+    + intros j Hj. rewrite tm_skipn. apply A3. lia.
+  - split; [|discriminate]. simpl. apply ffl_none_iff. intros j Hj. rewrite skipn_length in Hj. rewrite tm_skipn.
+    apply (ffl_none H td F). lia. Qed.
+Lemma skipn_skipn' {A} (l : list A) : forall a b, skipn a (skipn b l) = skipn (b + a) l.
+Proof. induction l as [|x r IH]; intros a b.
+  - rewrite !skipn_nil. reflexivity.
+  - destruct b; simpl; auto. Qed.
+
+Lemma PR_weaken tq tq' P H : tq <= tq' -> PR tq P H -> PR tq' P H.
+Proof. intros L (k & E & [K0|[H1 H2]]); exists k; split; auto. right. split; auto. lra. Qed.
+
+(** equal answers *)
+Lemma PR_same_answer tq P H td : sorted H -> PR tq P H -> tq <= td -> calc_value_at ROps P td = calc_value_at ROps H td.
+Proof. intros Hs (k & -> & C) L. apply drop_old_same_answer; auto. destruct C as [K0|[H1 H2]]; auto. right. split; auto. lra. Qed.
+
+(** one update keeps the relation, with the new request bound *)
+Lemma PR_step tq P H tE tNow v : sorted H -> PR tq P H -> tq <= tE -> tE <= tNow ->
+  PR tE (copy_in_and_update ROps P tE tNow v) (hist_step H tNow v) /\ sorted (hist_step H tNow v).
+Proof. intros Hs (k & EP & C) L1 L2.
+  set (lH := count_to_last_earlier ROps H tNow).
+  pose proof (cle_le H tNow) as LlH. fold lH in LlH.
+  destruct (cle_sorted H tNow Hs) as [A B]. fold lH in A, B.
+  assert (SH' : sorted (hist_step H tNow v)).
+  { unfold hist_step. fold lH. apply sorted_app; [apply sorted_firstn; auto|].
+    intros j Hj. rewrite firstn_length_le in Hj by lia. simpl. rewrite tm_firstn by lia. apply A; auto. }
+  split; [|exact SH'].
+  assert (Early : forall j, (j < k + 2)%nat -> k <> 0%nat -> tm H j < tq).
+  { intros j Hj Nk. destruct C as [->|[C1 C2]]; [lia|].
+    destruct (Nat.eq_dec j (k + 1)) as [->|N]; auto.
+    eapply Rlt_trans; [apply (sorted_lt H Hs j (k + 1)); lia | exact C2]. }
+  assert (KlH : (k = 0 \/ k + 2 <= lH)%nat).
+  { destruct C as [->|[C1 C2]]; [left; auto|right].
+    destruct (Nat.le_gt_cases (k + 2) lH); auto. exfalso.
+    pose proof (B (k + 1)%nat ltac:(lia) ltac:(lia)). lra. }
+  assert (SP : sorted P) by (rewrite EP; apply sorted_skipn; auto).
+  assert (lP : count_to_last_earlier ROps P tNow = (lH - k)%nat).
+  { rewrite EP. apply cle_skipn; auto. fold lH. lia. }
+  pose proof (count_unneeded_spec P tE tNow SP L2) as Sp. cbv zeta in Sp. rewrite lP in Sp.
+  set (fP := count_unneeded ROps P tE) in *.
+  assert (FP : (fP <= lH - k)%nat) by (destruct Sp as [->|[H1 _]]; lia).
+  unfold copy_in_and_update. fold fP. rewrite lP.
+  exists (k + fP)%nat. split.
+  - unfold hist_step. fold lH.
+    rewrite skipn_app. rewrite firstn_length_le by lia.
+    replace (k + fP - lH)%nat with 0%nat by lia. simpl. f_equal.
+    rewrite firstn_skipn_comm. replace (fP + (lH - k - fP))%nat with (lH - k)%nat by lia.
+    rewrite EP. rewrite firstn_skipn_comm. replace (k + (lH - k))%nat with lH by lia.
+    apply skipn_skipn'.
+  - assert (LH' : length (hist_step H tNow v) = (lH + 1)%nat).
+    { unfold hist_step. fold lH. rewrite app_length, firstn_length_le by lia. reflexivity. }
+    assert (TH' : forall j, (j < lH)%nat -> tm (hist_step H tNow v) j = tm H j).
+    { intros j Hj. unfold hist_step, tm. fold lH. rewrite app_nth1 by (rewrite firstn_length_le; lia).
+      change (fst (nth j (firstn lH H) dE)) with (tm (firstn lH H) j). apply tm_firstn; auto. }
+    destruct Sp as [F0|[F1 F2]].
+    + rewrite F0, Nat.add_0_r. destruct (Nat.eq_dec k 0) as [K0|Nk]; [left; exact K0|right].
+      destruct KlH as [K0|K2]; [lia|].
+      split; [rewrite LH'; lia|]. rewrite TH' by lia. apply Rlt_le_trans with tq; auto. apply Early; lia.
+    + right. split; [rewrite LH'; lia|]. rewrite TH' by lia.
+      rewrite EP in F2. rewrite tm_skipn in F2. replace (k + fP + 1)%nat with (k + (fP + 1))%nat by lia. exact F2. Qed.
+
+(** many updates: [samples] are the (time, value) pairs recorded at successive auto-updates *)
+Fixpoint replay (delay : R) (samples : list (R * list R)) (PH : Buf * Buf) : Buf * Buf :=
+  match samples with
+  | [] => PH
+  | (t, v) :: r => replay delay r (copy_in_and_update ROps (fst PH) (t - delay) t v, hist_step (snd PH) t v)
+  end.
+Fixpoint nondecreasing_from (t0 : R) (samples : list (R * list R)) : Prop :=
+  match samples with [] => True | (t, _) :: r => t0 <= t /\ nondecreasing_from t r end.
+Fixpoint last_time (t0 : R) (samples : list (R * list R)) : R :=
+  match samples with [] => t0 | (t, _) :: r => last_time t r end.
+
+Lemma pruned_buffer_answers_like_full_history delay : 0 <= delay -> forall samples t0 P H,
+  sorted H -> PR (t0 - delay) P H -> nondecreasing_from t0 samples ->
+  let PH := replay delay samples (P, H) in
+  sorted (snd PH) /\ PR (last_time t0 samples - delay) (fst PH) (snd PH) /\
+  forall td, last_time t0 samples - delay <= td -> calc_value_at ROps (fst PH) td = calc_value_at ROps (snd PH) td.
+Proof. intros D. induction samples as [|[t v] r IH]; intros t0 P H Hs Hp Mono; simpl.
+  - split; auto. split; auto. intros td L. eapply PR_same_answer; eauto.
+  - destruct Mono as [M1 M2].
+    destruct (PR_step (t0 - delay) P H (t - delay) t v Hs Hp ltac:(lra) ltac:(lra)) as [Hp' Hs'].
+    apply (IH t _ _ Hs' Hp' M2). Qed.
+
+(** non-vacuity: five samples one time unit apart, delay 3/2: the stored buffer has dropped the oldest sample, the history has
+    not, and (by the theorem) both answer every request at or after 4 - 3/2 alike.  (With a delay SHORTER than the step no stored
+    time is ever >= t - delay, countNumUnneededOldEntries then returns 0 and nothing is ever dropped: second part.) *)
+Example pruned_history_example :
+  let smp := [(0, [0]); (1, [1]); (2, [0]); (3, [1]); (4, [0])] in
+  0 <= 3/2 /\ sorted ([] : Buf) /\ PR (0 - 3/2) [] [] /\ nondecreasing_from 0 smp /\
+  length (fst (replay (3/2) smp ([], []))) = 4%nat /\ length (snd (replay (3/2) smp ([], []))) = 5%nat /\
+  length (fst (replay (1/2) smp ([], []))) = 5%nat.
+Proof. intros smp. split; [lra|]. split; [exact I|]. split; [exists 0%nat; auto|]. split; [simpl; lra|].
+  unfold smp. split; [|split]; reval; reflexivity. Qed.
